@@ -1,7 +1,7 @@
 #!/bin/bash
 # tools/seedtest.sh <scratch> <patch.diff> <check ids...> : apply a seeded defect in the scratch repo, run checks there, revert
 S="$1"; P="$2"; shift 2
-git -C "$S/repo" checkout -q -- . ; git -C "$S/repo" apply "$P" || { echo "SEED $(basename $(dirname $P)): patch does not apply"; exit 2; }
+git -C "$S/repo" checkout -q -- . ; git -C "$S/repo" apply -3 "$P" 2>/dev/null || git -C "$S/repo" apply "$P" || { echo "SEED $(basename $(dirname $P)): patch does not apply"; exit 2; }
 for id in "$@"; do
   out="$("$S/verif/check" "$id" quick 2>&1 | tail -4)"
   if echo "$out" | grep -q "^VIOLATED"; then echo "SEED $P: $id CAUGHT ($(echo "$out" | grep -o 'violation\[0\]: [^:]*' | head -1))";
